@@ -415,12 +415,11 @@ theorem pin_sighash_consts :
     Generated.C07.sigHashDefault = SIGHASH_DEFAULT.toNat ∧ Generated.C07.sigHashOld = 0 ∧
     Generated.C07.sigHashAll = SIGHASH_ALL.toNat ∧ Generated.C07.sigHashNone = SIGHASH_NONE.toNat ∧
     Generated.C07.sigHashSingle = SIGHASH_SINGLE.toNat ∧
-    Generated.C07.sigHashAnyOneCanPay = SIGHASH_ANYONECANPAY.toNat ∧
-    Generated.C07.sigHashMask = SIGHASH_MASK.toNat := by decide
+    Generated.C07.sigHashAnyOneCanPay = SIGHASH_ANYONECANPAY.toNat := by decide
 
+/-- exported protocol constants only (internal identifiers such as sigHashMask / blankCodeSepValue /
+the ext-flag constants are not pinned: their effect is observed through the digests) -/
 theorem pin_taproot_consts :
-    Generated.C07.blankCodeSepValue = BLANK_CODESEP.toNat ∧
-    Generated.C07.baseSigHashExtFlag = 0 ∧ Generated.C07.tapscriptSighashExtFlag = 1 ∧
     Generated.C07.taprootAnnexTag = 0x50 ∧ Generated.C07.baseLeafVersion = 0xc0 ∧
     Generated.C07.opCodeSeparator = OP_CODESEPARATOR.toNat := by decide
 
